@@ -158,7 +158,8 @@ def run(ctx):
     fn = u.function("rtosc_bundle")
     params = u.params(fn)
     loops = [x for x in A.walk(u.body(fn)) if x.get("kind") == "ForStmt"]
-    ctx.require(len(loops) >= 1, "R08.3: rtosc_bundle has no element loop")
+    if not loops:
+        ctx.note("rtosc_bundle: no `for` loop over the elements in the function itself; its strides are decided by R08.10 alone")
     for k, lp in enumerate(loops):
         body = lp["inner"][4]
         assigned = [x for x in A.walk(body) if x.get("kind") == "CompoundAssignOperator" and x.get("opcode") == "+="]
@@ -171,11 +172,13 @@ def run(ctx):
         try:
             S = sm.summarise([body])
         except C.Unrecognised as e:
-            raise AnalysisBroken("R08.3: rtosc_bundle loop #%d: %s" % (k, e))
+            ctx.note("rtosc_bundle loop #%d is not `cursor += 4 + length` (%s); decided by R08.10 alone" % (k, e))
+            continue
         items = list(S.items)
         tab = {s: (4 + s if items in ([4, "len"], ["len", 4]) else None) for s in SIZES}
         strides["rtosc_bundle:loop#%d(%s)" % (k, ",".join(sorted(u.by_id[c].get("name") for c in curs)))] = (tab, A.where(lp), str(items))
-    ctx.require(sum(1 for k_ in strides if k_.startswith("rtosc_bundle:loop")) >= 2, "R08.3: the two element loops of rtosc_bundle were not found")
+    if sum(1 for k_ in strides if k_.startswith("rtosc_bundle:loop")) < 2:
+        ctx.note("rtosc_bundle: fewer than two element loops of the known form; the writer's layout is decided by R08.10")
     for name, (tab, site, text) in strides.items():
         ok = all(tab.get(s) == 4 + s for s in SIZES)
         ctx.ob("R08.3", name, ok, site=site, detail={"expression": text, "stride_by_size": {str(s): tab.get(s) for s in SIZES}},
@@ -218,11 +221,13 @@ def run(ctx):
         if d.get("kind") == "VarDecl" and "*" in A.stype(d) and A.kids(d) and C.refs(A.kids(d)[-1]) == {bufp}:
             cursors.add(d["id"])
     advanced = {C.var_id(A.kids(x)[0]) for x in A.walk(u.body(fn)) if x.get("kind") == "CompoundAssignOperator" and x.get("opcode") == "+="} & cursors
-    ctx.require(len(advanced) == 1, "R08.5: rtosc_bundle: write cursor not identified (%d candidates)" % len(advanced))
-    cur_id = advanced.pop()
+    writer_by_shape = len(advanced) == 1
+    if not writer_by_shape:
+        ctx.note("rtosc_bundle: no single advancing write cursor (%d candidates); the writer's offsets are decided by R08.10 alone" % len(advanced))
+    cur_id = advanced.pop() if writer_by_shape else None
     off = 0
     seen = {}
-    for s in A.kids(u.body(fn)):
+    for s in (A.kids(u.body(fn)) if writer_by_shape else []):
         e = A.strip(s)
         if e.get("kind") == "CompoundAssignOperator" and e.get("opcode") == "+=" and C.var_id(A.kids(e)[0]) == cur_id:
             v = _const_value(u, A.kids(e)[1])
@@ -239,9 +244,12 @@ def run(ctx):
         if s.get("kind") == "ForStmt" and any(C.var_id(A.kids(x)[0]) == cur_id for x in A.walk(s) if x.get("kind") == "CompoundAssignOperator"):
             seen["elements"] = off
             break
-    ctx.require(set(seen) == {"magic", "emplace_uint64", "elements"}, "R08.5: rtosc_bundle: header writes not recognised (%s)" % sorted(seen))
-    ctx.ob("R08.5", "rtosc_bundle:offsets", seen == {"magic": 0, "emplace_uint64": 8, "elements": 16}, site=A.where(fn), detail=seen,
-           what="rtosc_bundle lays out magic/time tag/elements at %s, expected 0/8/16" % seen)
+    if writer_by_shape and set(seen) != {"magic", "emplace_uint64", "elements"}:
+        ctx.note("rtosc_bundle: header writes not recognised by shape (%s); decided by R08.10 alone" % sorted(seen))
+        writer_by_shape = False
+    if writer_by_shape:
+        ctx.ob("R08.5", "rtosc_bundle:offsets", seen == {"magic": 0, "emplace_uint64": 8, "elements": 16}, site=A.where(fn), detail=seen,
+               what="rtosc_bundle lays out magic/time tag/elements at %s, expected 0/8/16" % seen)
     # the starting offsets of the readers and of rtosc_bundle_timetag are decided by R08.9 (layout evaluation)
 
     # ---- R08.6
@@ -257,6 +265,11 @@ def run(ctx):
         ids = None
         if ok:
             ids = [A.ref_id(A.kids(em[0])[2]), A.ref_id(A.kids(mc[0])[3]), A.ref_id(A.kids(adv[0])[1])]
+            if any(i_ is None for i_ in ids):
+                # one of the three is an expression (`pos += 4+size`), not a plain variable: what the loop writes is decided
+                # by the interpretation of the writer (R08.10), which compares every byte and the returned length
+                ctx.note("rtosc_bundle copy loop: prefix / copy length / advance are not three plain variables; decided by R08.10")
+                continue
             ok = ids[0] is not None and ids[0] == ids[1] == ids[2]
             # the variable is the measured length of the very message that is copied
             if ok:
@@ -344,7 +357,8 @@ def run(ctx):
         init_ = A.kids(tot)[-1]
         parts = [(sg, _const_value(u, t_)) for sg, t_ in C._additive_terms(init_)]
         iv = sum(sg * v_ for sg, v_ in parts) if all(v_ is not None for _, v_ in parts) else None
-    ctx.ob("R08.5", "rtosc_bundle:precomputed-header-size", iv == seen.get("elements"), site=A.where(tot) if tot is not None else A.where(fnb),
+    if writer_by_shape:
+      ctx.ob("R08.5", "rtosc_bundle:precomputed-header-size", iv == seen.get("elements"), site=A.where(tot) if tot is not None else A.where(fnb),
            detail={"initial_total": iv, "first_element_offset": seen.get("elements")},
            what="rtosc_bundle pre-computes a header of %s bytes but writes its first element at offset %s" % (iv, seen.get("elements")))
 
@@ -374,6 +388,30 @@ def run(ctx):
     ctx.ob("R08.7", "zero size field after the last element", full_clear or term, site=A.where(fb),
            detail={"rtosc_bundle_clears_whole_destination": full_clear, "append_bundle_writes_terminator": term},
            what="neither does rtosc_bundle zero-fill its whole destination nor does append_bundle write a terminating zero size field: stale bytes behind an appended element read as further elements")
+
+    # ---- R08.10: the writer interpreted
+    ctx.rule("R08.10", "WRITER-LAYOUT: rtosc_bundle, interpreted on seven lists of element sizes (the variadic elements handed out in order, rtosc_message_length answering with their sizes), returns the bundle's length and writes `#bundle`, the time tag, and per element its big-endian size and its bytes; into a buffer with spare room the rest stays zero (the terminator of a later nesting), into one that is a byte too small it writes nothing but zeros and returns 0")
+    from ..rules import bundlewalk as BW10
+    bad10 = []
+    for sizes10 in BW10.LAYOUTS:
+        exp10 = BW10.expected_bundle(sizes10)
+        try:
+            r_a, b_a, o_a = BW10.write_bundle(u, sizes10, len(exp10) + 8)
+            r_b, b_b, o_b = BW10.write_bundle(u, sizes10, len(exp10))
+            r_c, b_c, o_c = BW10.write_bundle(u, sizes10, len(exp10) - 1)
+        except FD.Unknown as e:
+            raise AnalysisBroken("R08.10: rtosc_bundle not evaluable on element sizes %s: %s" % (sizes10, e))
+        probs = []
+        if r_a != len(exp10) or b_a[:len(exp10)] != exp10 or any(b_a[len(exp10):]) or o_a:
+            probs.append({"capacity": "needed+8", "returns": r_a, "expected": len(exp10), "written": b_a.hex()[:96], "stores_beyond_capacity": o_a[:4]})
+        if r_b != len(exp10) or b_b != exp10 or o_b:
+            probs.append({"capacity": "exactly needed", "returns": r_b, "expected": len(exp10), "stores_beyond_capacity": o_b[:4]})
+        if r_c != 0 or any(b_c) or o_c:
+            probs.append({"capacity": "needed-1", "returns": r_c, "expected": 0, "non_zero_bytes_left": sum(1 for x_ in b_c if x_), "stores_beyond_capacity": o_c[:4]})
+        if probs:
+            bad10.append({"element_sizes": sizes10, "problems": probs})
+    ctx.ob("R08.10", "rtosc_bundle", not bad10, site=A.where(u.function("rtosc_bundle")), detail={"layouts": [list(l_) for l_ in BW10.LAYOUTS], "mismatches": bad10[:3]},
+           what="rtosc_bundle, interpreted, does not lay the bundle out as specified: %s" % bad10[:2])
 
     # ---- R08.9
     from ..rules import bundlewalk as BW
